@@ -1085,15 +1085,32 @@ func discoverErrUse(p *Program, pkgs map[string]bool, report func(fn *ssa.Functi
 			if !ok {
 				continue
 			}
-			bo, ok := iff.Cond.(*ssa.BinOp)
-			if !ok || (bo.Op != token.NEQ && bo.Op != token.EQL) {
-				continue
-			}
 			var ev ssa.Value
-			if isNilConst(bo.Y) && types.Identical(bo.X.Type(), errT) {
-				ev = bo.X
-			} else if isNilConst(bo.X) && types.Identical(bo.Y.Type(), errT) {
-				ev = bo.Y
+			var alt ssa.Value // the asserted concrete error, when the test is a type assertion
+			var bad *ssa.BasicBlock
+			if bo, ok := iff.Cond.(*ssa.BinOp); ok && (bo.Op == token.NEQ || bo.Op == token.EQL) {
+				if isNilConst(bo.Y) && types.Identical(bo.X.Type(), errT) {
+					ev = bo.X
+				} else if isNilConst(bo.X) && types.Identical(bo.Y.Type(), errT) {
+					ev = bo.Y
+				}
+				bad = b.Succs[0]
+				if bo.Op == token.EQL {
+					bad = b.Succs[1]
+				}
+			} else if ex, ok := iff.Cond.(*ssa.Extract); ok && ex.Index == 1 {
+				// if _, isX := err.(*SomeError); isX { ... }: the error is set on the true edge
+				if ta, ok := ex.Tuple.(*ssa.TypeAssert); ok && ta.CommaOk && types.Identical(ta.X.Type(), errT) {
+					ev = ta.X
+					bad = b.Succs[0]
+					if refs := ta.Referrers(); refs != nil {
+						for _, rf := range *refs {
+							if e0, ok := rf.(*ssa.Extract); ok && e0.Index == 0 {
+								alt = e0
+							}
+						}
+					}
+				}
 			}
 			if ev == nil {
 				continue
@@ -1107,10 +1124,6 @@ func discoverErrUse(p *Program, pkgs map[string]bool, report func(fn *ssa.Functi
 				}
 			default:
 				continue
-			}
-			bad := b.Succs[0]
-			if bo.Op == token.EQL {
-				bad = b.Succs[1]
 			}
 			used, returns := false, false
 			for _, d := range fn.Blocks {
@@ -1127,7 +1140,7 @@ func discoverErrUse(p *Program, pkgs map[string]bool, report func(fn *ssa.Functi
 						continue
 					}
 					for _, op := range ins.Operands(nil) {
-						if op != nil && *op == ev {
+						if op != nil && (*op == ev || (alt != nil && *op == alt)) {
 							used = true
 						}
 					}
@@ -1164,7 +1177,11 @@ func ruleERRUSE(pkgs ...string) func(p *Program, r *Reporter) {
 				}
 			}
 			ok := used || returns
-			r.Ob(id, funcName(fn), "error of "+name, iff.Cond.Pos(), ok, true,
+			pos := iff.Cond.Pos()
+			if ex, isEx := iff.Cond.(*ssa.Extract); isEx && !pos.IsValid() {
+				pos = ex.Tuple.Pos()
+			}
+			r.Ob(id, funcName(fn), "error of "+name, pos, ok, true,
 				ifs(ok, "the failing branch uses the error or ends the function", "the error of "+name+" is tested but, when set, neither used nor followed by a return: the failure is dropped and the operation is reported successful"))
 		})
 	}
@@ -1551,4 +1568,298 @@ func blockReachesAvoiding(from, to, avoid *ssa.BasicBlock) bool {
 		work = append(work, b.Succs...)
 	}
 	return false
+}
+
+// ---------------------------------------------------------------------------
+// T-COMMIT — a commit that fails while applying its rows leaves the reference
+// index alone: in inMemoryDatabase.Commit the reference index is only updated
+// on the path where ApplyCacheUpdate returned nil.
+
+func ruleTCOMMIT(p *Program, r *Reporter) {
+	const id = "T-COMMIT"
+	fn := p.Fn("database/inmemory", "inMemoryDatabase", "Commit")
+	if fn == nil {
+		r.Anchor(id, "inmemory.(*inMemoryDatabase).Commit")
+		return
+	}
+	region := p.PrivateRegion(fn)
+	writesRefs := func(g *ssa.Function) bool {
+		for _, h := range p.Reach(g) {
+			for _, b := range h.Blocks {
+				for _, ins := range b.Instrs {
+					if c, ok := ins.(*ssa.Call); ok {
+						if sc := c.Call.StaticCallee(); sc != nil && sc.Name() == "UpdateReferences" {
+							return true
+						}
+					}
+				}
+			}
+		}
+		return false
+	}
+	n := 0
+	for g := range region {
+		if g.Parent() != nil {
+			continue
+		}
+		var apply *ssa.Call
+		var refs []*ssa.Call
+		for _, b := range g.Blocks {
+			for _, ins := range b.Instrs {
+				c, ok := ins.(*ssa.Call)
+				if !ok {
+					continue
+				}
+				name := ""
+				if sc := c.Call.StaticCallee(); sc != nil {
+					name = sc.Name()
+				} else if c.Call.IsInvoke() {
+					name = c.Call.Method.Name()
+				}
+				switch {
+				case name == "ApplyCacheUpdate":
+					apply = c
+				case name == "UpdateReferences":
+					refs = append(refs, c)
+				default:
+					// a call handed a closure that updates the references (ForReferenceUpdates)
+					for _, a := range c.Call.Args {
+						if mc, ok := a.(*ssa.MakeClosure); ok {
+							if cf, ok := mc.Fn.(*ssa.Function); ok && writesRefs(cf) {
+								refs = append(refs, c)
+							}
+						}
+					}
+				}
+			}
+		}
+		if apply == nil {
+			continue
+		}
+		for _, rc := range refs {
+			n++
+			ok := apply.Block().Dominates(rc.Block()) && errorStops(apply, rc.Block())
+			r.Ob(id, funcName(g), "reference index after rows", rc.Pos(), ok, true,
+				ifs(ok, "the reference index is updated only after ApplyCacheUpdate succeeded", "the reference index is updated although ApplyCacheUpdate may not have run or may have failed: a commit that fails half way leaves references to rows that were never stored, and later garbage-collection decisions depend on that history"))
+		}
+	}
+	if n < 1 {
+		r.Anchor(id, "Commit: ApplyCacheUpdate followed by an update of the reference index")
+	}
+}
+
+// ---------------------------------------------------------------------------
+// K-FRESH — a decoder never builds its result in storage the destination
+// already had: for every slice- or map-typed field of the receiver that an
+// UnmarshalJSON of package ovsdb writes, a store of a newly made container
+// dominates every other access of that field in the method. (Values copied
+// out of the destination earlier share its backing array.)
+
+func ruleKFRESH(p *Program, r *Reporter) {
+	const id = "K-FRESH"
+	n := 0
+	for _, fn := range p.srcFuncs {
+		if pkgOf(fn) != "ovsdb" || fn.Name() != "UnmarshalJSON" || fn.Signature.Recv() == nil || len(fn.Params) == 0 {
+			continue
+		}
+		recv := fn.Params[0]
+		isFieldLoad := func(v ssa.Value, f *types.Var) bool {
+			ld, ok := v.(*ssa.UnOp)
+			if !ok || ld.Op != token.MUL {
+				return false
+			}
+			fa, ok := ld.X.(*ssa.FieldAddr)
+			return ok && fa.X == ssa.Value(recv) && fieldOfAddr(fa) == f
+		}
+		var derives func(v ssa.Value, f *types.Var, depth int) bool
+		derives = func(v ssa.Value, f *types.Var, depth int) bool {
+			if depth > 8 {
+				return false
+			}
+			if isFieldLoad(v, f) {
+				return true
+			}
+			switch x := v.(type) {
+			case *ssa.Slice:
+				return derives(x.X, f, depth+1)
+			case *ssa.ChangeType:
+				return derives(x.X, f, depth+1)
+			case *ssa.Phi:
+				for _, e := range x.Edges {
+					if derives(e, f, depth+1) {
+						return true
+					}
+				}
+			case *ssa.Call:
+				if bi, ok := x.Call.Value.(*ssa.Builtin); ok && bi.Name() == "append" && len(x.Call.Args) > 0 {
+					return derives(x.Call.Args[0], f, depth+1)
+				}
+			}
+			return false
+		}
+		type acc struct {
+			ins   ssa.Instruction
+			store bool
+			fresh bool
+		}
+		byField := map[*types.Var][]acc{}
+		for _, b := range fn.Blocks {
+			for _, ins := range b.Instrs {
+				fa, ok := ins.(*ssa.FieldAddr)
+				if !ok || fa.X != ssa.Value(recv) {
+					continue
+				}
+				f := fieldOfAddr(fa)
+				if f == nil {
+					continue
+				}
+				switch f.Type().Underlying().(type) {
+				case *types.Slice, *types.Map:
+				default:
+					continue
+				}
+				refs := fa.Referrers()
+				if refs == nil {
+					continue
+				}
+				for _, ref := range *refs {
+					switch u := ref.(type) {
+					case *ssa.Store:
+						if u.Addr == ssa.Value(fa) {
+							byField[f] = append(byField[f], acc{u, true, !derives(u.Val, f, 0)})
+						}
+					case *ssa.UnOp:
+						byField[f] = append(byField[f], acc{u, false, false})
+					}
+				}
+			}
+		}
+		var fields []*types.Var
+		for f, as := range byField {
+			for _, a := range as {
+				if a.store {
+					fields = append(fields, f)
+					break
+				}
+			}
+		}
+		sort.Slice(fields, func(i, j int) bool { return fields[i].Name() < fields[j].Name() })
+		for _, f := range fields {
+			n++
+			ok := true
+			var pos token.Pos = fn.Pos()
+			for _, o := range byField[f] {
+				if o.store && o.fresh {
+					continue
+				}
+				// a read of the field, or a store built from its old content: some store of a
+				// value that owes nothing to the old content must come first on every path
+				covered := false
+				for _, a := range byField[f] {
+					if a.store && a.fresh && a.ins != o.ins && a.ins.Block().Dominates(o.ins.Block()) && (a.ins.Block() != o.ins.Block() || instrBefore(a.ins, o.ins)) {
+						covered = true
+					}
+				}
+				if !covered {
+					ok = false
+					pos = o.ins.Pos()
+				}
+			}
+			r.Ob(id, funcName(fn), "field "+f.Name()+" rebuilt from scratch", pos, ok, true,
+				ifs(ok, "every read of the field follows a store of a value that owes nothing to the destination's old content", "the decoder reads or re-slices the destination's existing "+f.Name()+" before storing a new container: values decoded earlier into the same variable share the backing array and change after the fact"))
+		}
+	}
+	if n < 2 {
+		r.Anchor(id, fmt.Sprintf("package ovsdb: %d container fields written by UnmarshalJSON methods, expected >= 2", n))
+	}
+}
+
+func instrBefore(a, b ssa.Instruction) bool {
+	if a.Block() != b.Block() {
+		return false
+	}
+	for _, ins := range a.Block().Instrs {
+		if ins == a {
+			return true
+		}
+		if ins == b {
+			return false
+		}
+	}
+	return false
+}
+
+// ---------------------------------------------------------------------------
+// P-OPT — whether an optional value is set is decided by the pointer alone:
+// in the notation/binding code no zero-test (reflect.Value.IsZero, or a
+// comparison of Len/Int/Float/String/Bool with the zero constant feeding an
+// "is default / is unset" verdict) is applied to the pointee obtained with
+// Elem(). An optional that points at 0, "", false is a set optional.
+// Structural form checked: the receiver of every (reflect.Value).IsZero call in
+// packages ovsdb and mapper does not derive from (reflect.Value).Elem.
+
+func rulePOPT(p *Program, r *Reporter) {
+	const id = "P-OPT"
+	n := 0
+	isReflectMethod := func(c *ssa.Call, name string) bool {
+		sc := c.Call.StaticCallee()
+		return sc != nil && sc.Name() == name && sc.Pkg != nil && sc.Pkg.Pkg.Path() == "reflect" && sc.Signature.Recv() != nil
+	}
+	var fromElem func(v ssa.Value, depth int, seen map[ssa.Value]bool) bool
+	fromElem = func(v ssa.Value, depth int, seen map[ssa.Value]bool) bool {
+		if depth > 8 || seen[v] {
+			return false
+		}
+		seen[v] = true
+		switch x := v.(type) {
+		case *ssa.Call:
+			if isReflectMethod(x, "Elem") {
+				return true
+			}
+			if isReflectMethod(x, "Indirect") {
+				return true
+			}
+			if sc := x.Call.StaticCallee(); sc != nil && sc.Pkg != nil && sc.Pkg.Pkg.Path() == "reflect" && sc.Name() == "Indirect" {
+				return true
+			}
+		case *ssa.Phi:
+			for _, e := range x.Edges {
+				if fromElem(e, depth+1, seen) {
+					return true
+				}
+			}
+		case *ssa.UnOp:
+			// load of a local cell: any store into it
+			if al, ok := x.X.(*ssa.Alloc); ok {
+				if refs := al.Referrers(); refs != nil {
+					for _, rf := range *refs {
+						if st, ok := rf.(*ssa.Store); ok && st.Addr == ssa.Value(al) && fromElem(st.Val, depth+1, seen) {
+							return true
+						}
+					}
+				}
+			}
+		}
+		return false
+	}
+	for _, fn := range p.srcFuncs {
+		if pk := pkgOf(fn); pk != "ovsdb" && pk != "mapper" {
+			continue
+		}
+		for _, b := range fn.Blocks {
+			for _, ins := range b.Instrs {
+				c, ok := ins.(*ssa.Call)
+				if !ok || !isReflectMethod(c, "IsZero") || len(c.Call.Args) == 0 {
+					continue
+				}
+				n++
+				bad := fromElem(c.Call.Args[0], 0, map[ssa.Value]bool{})
+				r.Ob(id, funcName(fn), "IsZero receiver", c.Pos(), !bad, true,
+					ifs(!bad, "IsZero is applied to the value itself (for a pointer: a nil test), not to a pointee", "IsZero is applied to the pointee of an optional (a value obtained with Elem): an optional that is set to the zero value of its type (0, \"\", false) is treated as unset and disappears from the encoded row"))
+			}
+		}
+	}
+	if n == 0 {
+		r.Info("P-OPT: no reflect.Value.IsZero call in packages ovsdb/mapper (nothing to decide)")
+	}
 }
